@@ -59,17 +59,12 @@ def reported_sets(ins, regs, flags, hot):
     for j, bt in enumerate(hot):
         env.mem[O.HOT_ADDR + j] = bt
     rid, rmem, wid, wmem = set(), [], set(), []
+    # the consumer pattern of a data-flow analysis: the read sets in one traversal of the lifted result, the write sets in
+    # a second traversal of the same object (a result that can only be traversed once yields empty write sets)
     for a in affs:
         if irsem.kind(a) != 'ExprAff':
             raise irsem.IllFormed('not an assignment')
-        for x in a.get_r(mem_read=True):
-            if irsem.kind(x) == 'ExprId':
-                rid.add(x.name)
-            elif irsem.kind(x) == 'ExprMem':
-                try:
-                    rmem.append((irsem.evaluate(x.arg, env) & 0xffffffff, x.size // 8))
-                except (irsem.Undefined, irsem.Uninterpreted, irsem.IllFormed):
-                    rmem.append((0, 1 << 32))      # unknown address: treated as covering everything (over-approximation is allowed)
+    for a in affs:
         for x in a.get_w():
             if irsem.kind(x) == 'ExprId':
                 wid.add(x.name)
@@ -78,6 +73,15 @@ def reported_sets(ins, regs, flags, hot):
                     wmem.append((irsem.evaluate(x.arg, env) & 0xffffffff, x.size // 8))
                 except (irsem.Undefined, irsem.Uninterpreted, irsem.IllFormed):
                     wmem.append((0, 1 << 32))
+    for a in affs:
+        for x in a.get_r(mem_read=True):
+            if irsem.kind(x) == 'ExprId':
+                rid.add(x.name)
+            elif irsem.kind(x) == 'ExprMem':
+                try:
+                    rmem.append((irsem.evaluate(x.arg, env) & 0xffffffff, x.size // 8))
+                except (irsem.Undefined, irsem.Uninterpreted, irsem.IllFormed):
+                    rmem.append((0, 1 << 32))      # unknown address: treated as covering everything (over-approximation is allowed)
         # a store reads the registers of its address
         if irsem.kind(a.dst) == 'ExprMem':
             for x in a.dst.arg.get_r(mem_read=True):
